@@ -108,11 +108,31 @@ def simple_trees(g):
 STAGES = ("closed", "loop", "branch", "restructure")
 
 
-def apply_stage(scfg: SCFG, stage: str) -> None:
-    """The public stage drivers (library exceptions propagate)."""
+def apply_stage(scfg: SCFG, stage: str):
+    """The public stage drivers (library exceptions propagate).  Returns the
+    resulting graph: the same object, except for the histories that write the
+    graph out and read it back between stages."""
+    if stage == "reentrant":
+        # restructure() on a graph whose loops were restructured already
+        scfg.join_returns()
+        scfg.restructure_loop()
+        scfg.restructure()
+        return scfg
+    if stage == "reload":
+        # write / read between the stages (dict, then YAML), the branch stage driven level by level on the re-read graph
+        from numba_scfg.core import transformations as T
+
+        scfg.join_returns()
+        scfg, _ = SCFG.from_dict(scfg.to_dict())
+        scfg.restructure_loop()
+        scfg, _ = SCFG.from_yaml(scfg.to_yaml())
+        T.restructure_branch(scfg.region)
+        for name in [k for k, b in scfg.graph.items() if isinstance(b, RegionBlock)]:
+            scfg.graph[name].subregion.restructure_branch()
+        return scfg
     if stage == "restructure":
         scfg.restructure()
-        return
+        return scfg
     if stage == "levelwise":
         # the same pipeline driven level by level: the non-recursive transformation on the top region, then the
         # public stage driver of every top-level region's own sub-graph (which recurses below it)
@@ -125,12 +145,13 @@ def apply_stage(scfg: SCFG, stage: str) -> None:
         T.restructure_branch(scfg.region)
         for name in [k for k, b in scfg.graph.items() if isinstance(b, RegionBlock)]:
             scfg.graph[name].subregion.restructure_branch()
-        return
+        return scfg
     scfg.join_returns()
     if stage in ("loop", "branch"):
         scfg.restructure_loop()
     if stage == "branch":
         scfg.restructure_branch()
+    return scfg
 
 
 # --------------------------------------------------------------------------
